@@ -194,14 +194,19 @@ def base_tree(h, nkeys, keylen, subs, one_per_tx=True):
     return keys
 
 
-def g3_case(nkeys, keylen, subs, dels, touch, ins, scan_in_tx=True):
+def g3_case(nkeys, keylen, subs, dels, touch, ins, scan_in_tx=True, touch_all=False):
     """one shape case: base tree; one transaction deleting `dels`, touching sub-bucket `touch`,
     inserting at `ins` in {None,'before','middle','after'}; in-transaction scan; commit; verify"""
     h = H()
     keys = base_tree(h, nkeys, keylen, subs)
     t = h.begin(True)
     b = h.bucket("getb", t, 0, hx("b"))
-    if touch is not None:
+    if touch_all:
+        for j in sorted(subs):
+            s = h.bucket("getb", t, b, hx("k%03ds" % j))
+            if j == touch:
+                h.emit("put %d %d %s %s" % (t, s, hx("t"), hx("u")))
+    elif touch is not None:
         s = h.bucket("getb", t, b, hx("k%03ds" % touch))
         h.emit("put %d %d %s %s" % (t, s, hx("t"), hx("u")))
     for i in dels:
@@ -641,3 +646,83 @@ def g_c6(seed):
                 h.emit("put %d %d %s %s" % (t, ha, rng.choice(keys), rval(rng, [0, 16, 300])))
             h.commit(t)
     return h.text()
+
+
+def g3_edge(nkeys=16, keylen=200):
+    """a sub-bucket only in the first / last leaf; delete every prefix / suffix that leaves that leaf
+    untouched (root collapse onto a never-loaded page) while the sub-bucket is modified"""
+    out = []
+    for sub in (0, nkeys - 1):
+        for cut in range(1, nkeys):
+            dels = range(cut, nkeys) if sub == 0 else range(0, cut)
+            if sub in dels:
+                dels = [i for i in dels if i != sub]
+            for touch in (None, sub):
+                out.append(("g3edge n=%d kl=%d sub=%d cut=%d touch=%s" % (nkeys, keylen, sub, cut, touch),
+                            g3_case(nkeys, keylen, {sub}, dels, touch, None)))
+    return out
+
+
+def g3_deep(nkeys=20, keylen=300, every=3, maxlen=8, stride=1):
+    """deep trees (300-byte keys: 4 levels with ~20 keys), a nested bucket next to every third key, ALL nested
+    buckets opened in the transaction, short contiguous deletes: leaf merge -> branch merge chains"""
+    subs = set(range(1, nkeys, every))
+    out = []
+    for lo in range(0, nkeys, stride):
+        for ln in range(1, maxlen + 1):
+            hi = min(nkeys, lo + ln)
+            dels = [i for i in range(lo, hi)]
+            out.append(("g3deep n=%d kl=%d del=[%d,%d) all-subs-open" % (nkeys, keylen, lo, hi),
+                        g3_case(nkeys, keylen, subs, dels, None, None, touch_all=True)))
+    # the same with gaps: delete i, i+1, skip, i+3, i+4
+    for lo in range(0, nkeys - 5):
+        dels = [lo, lo + 1, lo + 3, lo + 4]
+        out.append(("g3deep n=%d kl=%d del=%s all-subs-open" % (nkeys, keylen, dels),
+                    g3_case(nkeys, keylen, subs, dels, None, None, touch_all=True)))
+    return out
+
+
+def g3_mixed(nkeys=20, keylen=300, every=3, one_tx=True, maxlen=7, seed=0):
+    """deep trees whose entries are a mix of pairs and nested buckets WITH LONG NAMES (every `every`-th entry is a
+    bucket named like a key), built in one transaction (one big spill) or one entry per transaction; then one
+    transaction opens every nested bucket and deletes the pairs of a window: leaf merge -> branch right-merge ->
+    grandparent left-merge chains with bucket headers re-inserted at commit"""
+    out = []
+    isb = lambda i: i % every == 1
+    for lo in range(0, nkeys):
+        for ln in range(2, maxlen + 1):
+            hi = min(nkeys, lo + ln)
+            h = H()
+            t = h.begin(True)
+            b = h.bucket("create", t, 0, hx("t"))
+            for i in range(nkeys):
+                if isb(i):
+                    h.bucket("create", t, b, lk(i, keylen))
+                else:
+                    h.emit("put %d %d %s %s" % (t, b, lk(i, keylen), "r10:%d" % i))
+                if not one_tx and i + 1 < nkeys:
+                    h.commit(t, verify=False)
+                    t = h.begin(True)
+                    b = h.bucket("getb", t, 0, hx("t"))
+            h.commit(t)
+            t = h.begin(True)
+            b = h.bucket("getb", t, 0, hx("t"))
+            for i in range(nkeys):
+                if isb(i):
+                    nb = h.bucket("getb", t, b, lk(i, keylen))
+                    h.emit("nextint %d %d" % (t, nb))
+            for i in range(lo, hi):
+                if not isb(i):
+                    h.emit("del %d %d %s" % (t, b, lk(i, keylen)))
+            h.emit("scan %d %d" % (t, b))
+            h.emit("nextint %d %d" % (t, b))
+            h.commit(t)
+            h.emit("reopen")
+            r = h.begin(False)
+            h.emit("dump %d" % r)
+            rb = h.bucket("getb", r, 0, hx("t"))
+            h.emit("scan %d %d" % (r, rb))
+            h.emit("nextint %d %d" % (r, rb))
+            h.emit("drop %d" % r)
+            out.append(("g3mixed n=%d kl=%d every=%d one_tx=%s del=[%d,%d)" % (nkeys, keylen, every, one_tx, lo, hi), h.text()))
+    return out
